@@ -51,6 +51,7 @@ class Machine:
         self.obs: list = []        # real observations (sexp per op)
         self.descr: list[str] = []
         self.frame_fail: str | None = None
+        self.before_observe = None   # hook run after the operation, before liveness is observed
 
     # ---- installation
     def __enter__(self):
@@ -431,6 +432,8 @@ class Machine:
         else:
             r = self.op_drop()
         # the op methods have returned: none of their locals holds a node any more
+        if self.before_observe is not None:
+            self.before_observe()
         if r is not None:
             self._push(*r)
 
